@@ -386,12 +386,14 @@ def explore_cell(lemma, cell, interp, timeout_ms=10000, max_paths=4000, replay=T
                 res.failures.append(f)
     # bounded probes: when an obligation of this cell is undecided (or refuted without a native witness) look for a
     # concrete failing input natively among the lemma's probe inputs; a hit is a replayed violation
-    needs = bool(res.undecided) or any(f.get("native") == "spurious" for f in res.failures)
+    needs = bool(res.undecided) or any(f.get("native") in ("spurious", "no-native-counterpart") for f in res.failures)
     if needs and replay and hasattr(lemma, "probes"):
         for holes in lemma.probes(cell):
             r = native_replay(lemma, cell, holes, None)
             if r["native"] == "confirmed":
-                res.failures.append({"clause": (res.undecided[0]["clause"] if res.undecided else res.failures[0]["clause"]),
+                # the probe witness replaces the witness-less refutations of this cell
+                res.failures = [f for f in res.failures if f.get("native") not in ("spurious", "no-native-counterpart")] or []
+                res.failures.append({"clause": (res.undecided[0]["clause"] if res.undecided else "probe"),
                                      "props": sorted(set(p for c in res.clauses.values() for p in c["props"])),
                                      "holes": holes, "native": "confirmed", "signature": "probe:%s" % r["signature"],
                                      "info": r["info"]})
